@@ -342,10 +342,12 @@ func verifHosts(l *roundRobinLoadBalancer) []*Host { return l.hosts.Load().([]*H
 //@   invariant i >= 0 && i % 2 == 0 && len(startupKeysAndValues) % 2 == 0
 
 //@ func proxycore.ClientConn.Handshake [C18, C17]
+//@   preserves-type proxycore.Cluster, proxycore.ClusterConfig
 //@   requires c != nil && c.closingMu != nil && c.pending != nil && c.conn != nil && c.codec != nil
 //@   modifies *, c.pending.$has, c.pending.$tag, c.pending.$val
 
 //@ func proxycore.Conn.Close [C14]
+//@   preserves-type proxycore.Cluster, proxycore.ClusterConfig
 //@   requires c != nil
 //@   modifies *
 
@@ -423,6 +425,7 @@ func verifHosts(l *roundRobinLoadBalancer) []*Host { return l.hosts.Load().([]*H
 
 //@ func proxycore.ClientConn.Close
 //@   requires c != nil && c.conn != nil
+//@   preserves-type proxycore.Cluster, proxycore.ClusterConfig
 //@   modifies *
 
 // connPool.connect: a connection enters the pool only after it was created with the pool's prepared
@@ -456,25 +459,90 @@ func verifHosts(l *roundRobinLoadBalancer) []*Host { return l.hosts.Load().([]*H
 //   $evFwd              a listener was called with it
 // ---------------------------------------------------------------------------------------------
 
-//@ func proxycore.Cluster.reconnect
-//@   trusted
+// C16: the control connection's state as the control goroutine sees it.
+//   clusterOK(c): there is always a non-empty host list to fail over to, and the host index is valid.
+//   $outageZero: the outage clock is zero ("no outage"); set by setOutageTime, the only writer.
+//   "reports a non-zero outage only while no control connection exists": controlConn != nil ==> $outageZero.
+//@ ghostvar $outageZero bool
+//@ macro connOK(cc) = cc != nil ==> cc.closingMu != nil && cc.pending != nil && cc.conn != nil && cc.codec != nil
+//@ macro clusterOK(c) = len(c.hosts) > 0 && -1 <= c.currentHostIndex && c.currentHostIndex < len(c.hosts) && c.logger != nil && c.config.Resolver != nil
+
+//@ type proxycore.Cluster
+//@   guarded_by outageMu: outageTime
+
+//@ func proxycore.Cluster.setOutageTime [C16, C18]
+//@   requires c != nil
+//@   entry-set $outageZero = (t.wall == 0 && t.ext == 0)
+//@   modifies c.outageTime
+
+//@ func proxycore.Cluster.sendEvent [C16]
+//@   requires c != nil
+//@   preserves-type proxycore.Cluster, proxycore.ClusterConfig
 //@   modifies *
-//@ func proxycore.Cluster.refreshHosts
-//@   trusted
+
+//@ loop proxycore.Cluster.mergeHosts #1
+//@   invariant existing != nil && fresh(existing)
+//@ loop proxycore.Cluster.mergeHosts #2
+//@   invariant c.currentHostIndex == -1 && existing != nil
+//@ loop proxycore.Cluster.mergeHosts #3
+//@   invariant existing != nil && 0 <= c.currentHostIndex && c.currentHostIndex < len(hosts) && c.hosts == old(c.hosts) && c.logger != nil && c.config.Resolver != nil
+//@ loop proxycore.Cluster.mergeHosts #4
+//@   invariant 0 <= c.currentHostIndex && c.currentHostIndex < len(hosts) && c.hosts == old(c.hosts) && c.logger != nil && c.config.Resolver != nil
+
+// mergeHosts: on success the new list is installed and the index points at the control connection's
+// host in it; on failure (that host is not listed) the old list stays.
+//@ func proxycore.Cluster.mergeHosts [C16]
+//@   requires c != nil && c.logger != nil && c.config.Resolver != nil
+//@   ensures installed: result == nil ==> c.hosts == hosts && len(hosts) > 0 && 0 <= c.currentHostIndex && c.currentHostIndex < len(hosts)
+//@   ensures refused: result != nil ==> c.hosts == old(c.hosts) && c.currentHostIndex == -1
+//@   ensures keeps-logger: c.logger == old(c.logger)
+//@   ensures keeps-resolver: c.config.Resolver == old(c.config.Resolver) && c.config.ReconnectPolicy == old(c.config.ReconnectPolicy)
+//@   ensures keeps-conn: c.controlConn == old(c.controlConn)
 //@   modifies *
-//@ func proxycore.Cluster.setOutageTime
-//@   trusted
-//@   modifies *
+
+// connect: a new control connection is installed together with a zero outage clock, and a successful
+// attempt leaves a non-empty host list with a valid index. A failed attempt keeps the host list.
+// (When the new connection's host is missing from the tables it reports, the attempt fails after the
+// connection was installed and closed: the loop then sees a closed connection. Hence the weaker
+// "installed => clock zero" instead of "failed => connection unchanged".)
+//@ func proxycore.Cluster.connect [C16]
+//@   requires c != nil && c.logger != nil && c.config.Resolver != nil && (c.controlConn != nil ==> $outageZero)
+//@   ensures connected: err == nil ==> c.controlConn != nil && clusterOK(c)
+//@   ensures connOK(c.controlConn) || c.controlConn == old(c.controlConn)
+//@   ensures outage-only-without-connection: c.controlConn != nil ==> $outageZero
+//@   ensures failed: err != nil ==> c.hosts == old(c.hosts) && (c.currentHostIndex == old(c.currentHostIndex) || c.currentHostIndex == -1)
+//@   ensures c.logger == old(c.logger) && c.config.Resolver == old(c.config.Resolver) && c.config.ReconnectPolicy == old(c.config.ReconnectPolicy)
+//@   modifies *, $outageZero
+
+// reconnect: fail over to the next known host (the index stays valid: the list is never empty).
+//@ func proxycore.Cluster.reconnect [C16, C17]
+//@   requires c != nil && clusterOK(c) && c.controlConn == nil
+//@   ensures result ==> c.controlConn != nil && clusterOK(c)
+//@   ensures connOK(c.controlConn)
+//@   ensures outage-only-without-connection: c.controlConn != nil ==> $outageZero
+//@   ensures !result ==> c.hosts == old(c.hosts) && clusterOK(c)
+//@   ensures c.logger == old(c.logger) && c.config.Resolver == old(c.config.Resolver) && c.config.ReconnectPolicy == old(c.config.ReconnectPolicy)
+//@   modifies *, $outageZero
+
+// refreshHosts: re-read the host tables over the control connection; a failure closes it (the loop
+// then notices the closed connection and fails over) and leaves the host list alone.
+//@ func proxycore.Cluster.refreshHosts [C16, C17]
+//@   requires c != nil && clusterOK(c) && c.controlConn != nil && c.controlConn.closingMu != nil && c.controlConn.pending != nil && c.controlConn.conn != nil && c.controlConn.codec != nil
+//@   ensures clusterOK(c) && c.controlConn == old(c.controlConn) && $outageZero == old($outageZero)
+//@   ensures c.config.ReconnectPolicy == old(c.config.ReconnectPolicy)
+//@   modifies *, c.controlConn.pending.$has, c.controlConn.pending.$tag, c.controlConn.pending.$val
 // Listeners (the proxy, sessions, the load balancer) change their own state, not the cluster's.
 //@ iface proxycore.ClusterListener.OnEvent
-//@   preserves-type proxycore.Cluster
+//@   preserves-type proxycore.Cluster, proxycore.ClusterConfig
 //@   modifies *
 //@ iface proxycore.ReconnectPolicy.Clone
 //@   ensures result != nil
 //@   modifies nothing
 //@ iface proxycore.ReconnectPolicy.NextDelay
+//@   preserves-type proxycore.Cluster, proxycore.ClusterConfig
 //@   modifies *
 //@ iface proxycore.ReconnectPolicy.Reset
+//@   preserves-type proxycore.Cluster, proxycore.ClusterConfig
 //@   modifies *
 
 //@ func proxycore.getOrUseDefault
@@ -486,6 +554,9 @@ func verifHosts(l *roundRobinLoadBalancer) []*Host { return l.hosts.Load().([]*H
 // C16: a refresh (reconnect) that is recorded as pending always has its timer running, so the
 // branch that performs it and clears the flag is eventually taken; without this, later topology
 // events are swallowed by the 'already pending' test.
+//@   invariant failover-possible: clusterOK(c) [C16, C17]
+//@   invariant conn-usable: connOK(c.controlConn) [C16, C17]
+//@   invariant outage-only-without-connection: c.controlConn != nil ==> $outageZero [C16]
 //@   invariant timers: refreshTimer != nil && connectTimer != nil && refreshTimer != connectTimer [C16]
 //@   invariant pending-refresh-armed: pendingRefresh ==> refreshTimer.$armed [C16]
 //@   invariant pending-connect-armed: pendingConnect ==> connectTimer.$armed [C16]
@@ -500,12 +571,13 @@ func verifHosts(l *roundRobinLoadBalancer) []*Host { return l.hosts.Load().([]*H
 //@   local $evMsg message.Message = nil
 //@   local $evListeners int = 0
 //@   requires c != nil && c.config.ReconnectPolicy != nil
+//@   requires after-start-up: clusterOK(c) && connOK(c.controlConn) && (c.controlConn != nil ==> $outageZero) [C16]
 //@   after select#* set $evTaken = (selidx == 4); $evFwd = false; $evListeners = len(c.listeners); $evMsg = recv4.Body.Message
 //@   before proxycore.ClusterListener.OnEvent#* set $evFwd = true
 // receiving from a timer's channel consumes its firing: case 1 of the two-way select is connectTimer.C,
 // case 3 of the five-way select is refreshTimer.C
 //@   after select#* set connectTimer.$armed = connectTimer.$armed && !(selcases == 2 && selidx == 1); refreshTimer.$armed = refreshTimer.$armed && !(selcases == 5 && selidx == 3)
-//@   modifies *, any(time.Timer).$armed
+//@   modifies *, any(time.Timer).$armed, $outageZero, any(proxycore.pendingRequests).$has, any(proxycore.pendingRequests).$tag, any(proxycore.pendingRequests).$val
 
 // ---------------------------------------------------------------------------------------------
 // C17 / C16: the control connection's view of the backend - result sets and the host list.
@@ -602,6 +674,7 @@ func verifHosts(l *roundRobinLoadBalancer) []*Host { return l.hosts.Load().([]*H
 
 // queryHosts: whatever the backend answers, the result is an error or a non-empty host list.
 //@ func proxycore.Cluster.queryHosts [C17, C16]
+//@   preserves-type proxycore.Cluster, proxycore.ClusterConfig
 //@   requires c != nil && c.config.Resolver != nil && c.logger != nil && conn != nil && conn.closingMu != nil && conn.pending != nil && conn.conn != nil && conn.codec != nil
 //@   ensures hosts-or-error: err == nil ==> len(hosts) > 0 && forall(k, 0, len(hosts), hosts[k] != nil)
 //@   modifies *, conn.pending.$has, conn.pending.$tag, conn.pending.$val
